@@ -117,6 +117,9 @@ def stepFields (fs : List String) (obs : String) : String :=
       | [_, r] => if r = s!"ok:{v}" then "ok" else "bad:size-does-not-read-back"
       | _ => "bad:size-does-not-read-back"
     m ++ "\t" ++ verdict
+  | ["keycrowd", _g, _per] =>
+    -- C02: the key is a function of the request (Rv.Key.keyString has no other argument): computed concurrently or alone, it is the same
+    "all-keys-their-own\t" ++ (if obs = "all-keys-their-own" then "ok" else if obs = "panic" then "bad:panic" else "bad:distinct-resources-share-an-entry")
   | ["wire", st, hd, cl, fl, bodyHex] =>
     -- the framing decision, completion flag and bytes of RawHTTPResponder for one response
     let body := if bodyHex = "-" then [] else (unhex bodyHex.toList).getD []
